@@ -71,5 +71,23 @@ let run () =
              (String.concat "" (List.mapi (fun i (tag, _) -> Printf.sprintf " %d:%d:%d" (int_of_z tag) (if binary_search g2.starts (nat_of_int i) then 1 else 0) (if binary_search g2.goals (nat_of_int i) then 1 else 0)) g2.verts))
              !acc other
          | LErr -> print_endline "graph load=0")
+    | "COPY" :: rest ->
+        (* COPY <dest tree> | <source tree> | <dest leaf values> | <source leaf values>: CopyModel.copy_state_data *)
+        (try
+           let toks = ref rest in
+           let next () = match !toks with x :: t -> toks := t; x | [] -> failwith "eof" in
+           let rec ptree () = match next () with
+             | "L" -> NLeaf (nat_of_int (int_of_string (next ())))
+             | _ -> let n = nat_of_int (int_of_string (next ())) in let k = int_of_string (next ()) in
+                    let rec subs i = if i = 0 then [] else let s = ptree () in s :: subs (i - 1) in NComp (n, subs k) in
+           let dS = ptree () in ignore (next ()); let sS = ptree () in ignore (next ());
+           let rec fill sp = match sp with
+             | NLeaf _ -> VLeafS (z_of_int (int_of_string (next ())))
+             | NComp (_, subs) -> VCompS (List.map fill subs) in
+           let d = fill dS in ignore (next ()); let s = fill sS in
+           let (r, d') = copy_state_data dS d sS s in
+           let rec vals st = match st with VLeafS v -> [string_of_int (int_of_z v)] | VCompS cs -> List.concat (List.map vals cs) in
+           print_endline (Printf.sprintf "copy %d | %s" (match r with CNone -> 0 | CSome -> 1 | CAll -> 2) (String.concat " " (vals d')))
+         with _ -> print_endline "copy-parse-error")
     | [] -> ()
     | _ -> print_endline ("? " ^ line))
